@@ -284,7 +284,10 @@ pub fn c17(ctx: &mut Ctx) {
     let mut lg = LintGroup::new_curated(dict.clone(), Dialect::American);
     Cfg::Only("CorrectNumberSuffix".into()).apply(&mut lg);
     let suffixes = ["st", "nd", "rd", "th"];
-    let frames: [(&str, &str); 8] = [("", ""), ("The ", " item."), ("", " of May"), ("See the ", ""), ("(", ")"), ("on the ", ", then"), ("it was the ", "; and"), ("\u{1F600} ", ".")];
+    // the later frames put other numbers, decimal points and full stops around the ordinal
+    let frames: [(&str, &str); 16] = [("", ""), ("The ", " item."), ("", " of May"), ("See the ", ""), ("(", ")"), ("on the ", ", then"), ("it was the ", "; and"), ("\u{1F600} ", "."),
+        ("He finished in ", " place. We had 3 winners."), ("", " place out of 3.5 thousand runners"), ("Version 1.2 shipped on the ", " of 10."), ("It cost $5.00 the ", " time in 2024."),
+        ("1. the ", "\n2. the 3rd"), ("From 9 to 5, the ", " is 100% fine, e.g. 0.5"), ("caf\u{00E9} 12 ", " 7"), ("the\t", "\tcolumn 4.25")];
 
     let mut check = |ctx: &mut Ctx, lg: &mut LintGroup, n: u64, suf: &str, frame: (&str, &str)| {
         ctx.report.evaluations += 1;
